@@ -159,7 +159,8 @@ XCFG = {
             "edit returned a value different from the one the same query returned before",
 }
 
-X_EDITS = ("set", "clearat", "clearall", "setref", "delref", "setformula", "setcached", "delcell", "newcell")
+X_EDITS = ("set", "clearat", "clearall", "setref", "delref", "setformula", "setcached", "delcell", "newcell",
+           "shadow", "unshadow", "copycell", "copyspace")
 
 
 def _short(res):
@@ -172,7 +173,7 @@ def _has_try(case, upto):
     bodies = [c["body"] for c in case["cells"]]
     bodies += [parse_sexp(" ".join(op[2:])) for op in case["ops"][:upto] if op[0] == "setformula"]
     bodies += [parse_sexp(" ".join(op[5:])) for op in case["ops"][:upto] if op[0] == "newcell"]
-    return any(e[0] == "try" for b in bodies for e in subexprs(b))
+    return any(e[0] in ("try", "trx") for b in bodies for e in subexprs(b))
 
 
 def xoracle(case, recs, out, stats):
@@ -246,7 +247,17 @@ def scenario_cases(ctx):
     cells_cases = cell_scenarios()
     if ctx.tier != "thorough":
         cells_cases = ctx.rng("scenarios-cells").sample(cells_cases, 20)
-    return cases + cells_cases + input_then_redefined_cases()      # 12 small cases
+    from . import c09
+    # a cached top above two / three uncached cells in a row, the leaf reading a reference of the OTHER space by
+    # attribute path (the only record of the read is the reference graph), and the model-level forms
+    chains = [c09.chain_case(n, form, ls, fl, flip) for n, form, ls, fl, flip in (
+        (3, "ra-other", 0, (False, False, True), False), (4, "ra-other", 0, (False, False, False, True), True),
+        (4, "ra-other", 0, (False, False, True, True), False), (3, "rg2", 0, (False, False, True), False))]
+    from . import c08
+    # a model-level reference read by name and through every attribute path, then changed / shadowed in the space the
+    # read went through / deleted (implementation-only vocabulary: judged by the edits-only replay)
+    names = [c for c in c08.visible_name_cases() if not c["label"].endswith("form 3")]
+    return cases + cells_cases + input_then_redefined_cases() + chains + names      # 12 + 4 + 8 small cases
 
 
 def cell_scenarios():
